@@ -320,7 +320,7 @@ def _locate_droplets_in_mask_cylindrical(mask: ScalarField) -> Emulsion:
                 # correct for the additional padding of the array
                 droplet.position[2] -= grid.length
                 # check whether the droplet lies in the original box
-                if z_min <= droplet.position[2] <= z_max:
+                if z_min <= droplet.position[2] < z_max:
                     droplets.append(droplet)
 
             _logger.info("Kept %d central droplets.", len(droplets))
